@@ -24,9 +24,13 @@
          own transaction had returned: nobody is left to release that lock
      110 stale element: a callback started on an element created before a
          successful commit to its name by another transaction that had not
-         written that element (known finding F6)
+         written that element, unless the transaction itself holds that element's
+         write lock or was already waiting for it when the other committed (two
+         writers of one name at once are outside the quantifier).  This was finding
+         F6, repaired by 2d185e4: a recurrence is a violation
    MISMATCH: 201 the observations differ from the model on the same schedule;
-             202 the case is tagged F6pre but the model's run is clean. *)
+             202 the case is tagged F6pre (the harness saw the entry of a write-held
+                 cache leave the map) but the model's run has no such step. *)
 From Coq Require Import List NArith ZArith Bool Arith.
 From Semadb Require Import Model_C11.
 Import ListNotations.
